@@ -122,7 +122,7 @@ pub fn line_write_delayed(path: &str, data: &[u8], delay: u64) {
         let now = w.now;
         w.event("line_write", data.len() as u64, 0);
         let l = line(w, path);
-        if !l.is_open && l.discard_when_closed {
+        if (!l.is_open && l.discard_when_closed) || l.to_port.read_fault.is_some() {
             return None;
         }
         l.to_port.push(now.saturating_add(delay), data);
@@ -154,7 +154,8 @@ pub fn inject_port_lost(path: &str, kind: io::ErrorKind) {
         w.count("fault_port_lost");
         w.event("inject_port_lost", 0, 0);
         let l = line(w, path);
-        l.to_port.read_fault = Some((l.to_port.total_read, kind));
+        // bytes already on the line are still delivered first
+        l.to_port.read_fault = Some((l.to_port.total_written, kind));
         l.to_port.rd_waker.take()
     });
     if let Some(wk) = wk {
@@ -230,7 +231,10 @@ impl PortHandle {
                     return Poll::Ready(Err(io::Error::from(kind)));
                 }
             }
-            let avail = p.available(now);
+            let mut avail = p.available(now);
+            if let Some((at, _)) = p.read_fault {
+                avail = avail.min((at - p.total_read) as usize);
+            }
             if avail == 0 {
                 if let Some(t) = p.next_ready() {
                     if t > now {
